@@ -1,13 +1,75 @@
-"""Bounded stand-in for C02: model equality after random operation histories on real projects (never counted as proved)."""
-from .common import Budget
-from .fsharness import run_histories
+"""Bounded stand-in for C02: reopen in a fresh session, lookup by id and by every id prefix (never counted as proved)."""
+import json
+import random
 
-RULE = "a case is one executed operation of a random history; non-trivial/distinct = distinct (operation kind, variant) pairs that actually executed"
+from .common import Budget, project_scratch, script_header
+from .fsharness import run_histories, ref_id
+
+RULE = "a case is one executed operation / one (project, prefix) lookup; non-trivial = distinct operation kinds and prefix outcomes (unique / ambiguous / unknown)"
+
+
+def prefix_checks(seed, budget, rounds):
+    import signac
+    evals, distinct, failures = 0, set(), []
+    rnd = random.Random(seed)
+    for r in range(rounds):
+        if not budget.left() or failures:
+            break
+        with project_scratch() as p:
+            sps = [{"a": rnd.randrange(10 ** 6), "b": rnd.choice([1, "x", None])} for _ in range(rnd.randint(1, 24))]
+            ids = sorted({p.open_job(sp).init().id for sp in sps})
+            if rnd.random() < 0.5:
+                p.update_cache()
+            q = signac.Project(p.path)                       # fresh session
+            for jid in rnd.sample(ids, min(3, len(ids))):    # partially filled in-memory cache
+                q.open_job(id=jid).statepoint()
+            cands = set()
+            for jid in ids:
+                for n in (1, 2, 3, 4, 31, 32):
+                    cands.add(jid[:n])
+            cands |= {"0", "f", "zz", "0" * 32}
+            for pre in sorted(cands):
+                m = [i for i in ids if i.startswith(pre)]
+                want = "unique" if len(m) == 1 else "ambiguous" if len(m) > 1 else "unknown"
+                if len(pre) == 32:
+                    want = "unique" if pre in ids else "unknown"
+                try:
+                    j = q.open_job(id=pre)
+                    got = "unique" if (m and j.id == m[0]) or (len(pre) == 32 and j.id == pre) else f"wrong job {j.id}"
+                except LookupError as e:
+                    got = "unknown" if isinstance(e, KeyError) else "ambiguous"
+                evals += 1
+                distinct.add((want, min(len(pre), 5)))
+                if got != want and not failures:
+                    failures.append({"key": f"prefix:{want}->{got}", "description": f"open_job(id={pre!r}) with workspace ids {ids}: expected {want}, got {got}",
+                                     "script": script_header() + f"""
+import signac, tempfile, json
+sps = json.loads({json.dumps(json.dumps(sps))})
+with tempfile.TemporaryDirectory() as d:
+    p = signac.init_project(d)
+    ids = sorted({{p.open_job(sp).init().id for sp in sps}})
+    q = signac.Project(d)
+    for jid in {rnd.sample(ids, min(3, len(ids)))!r}:
+        q.open_job(id=jid).statepoint()
+    m = [i for i in ids if i.startswith({pre!r})]
+    try:
+        j = q.open_job(id={pre!r}); got = j.id
+    except KeyError: got = "KeyError"
+    except LookupError: got = "LookupError"
+    want = m[0] if len(m) == 1 else ("LookupError" if len(m) > 1 else "KeyError")
+    assert got == want, (got, want)
+"""})
+    return evals, distinct, failures
 
 
 def run(tier="quick", seed=0):
     b = Budget(12 if tier == "quick" else 240)
-    r = run_histories(seed + 2, b, n_hist=40 if tier == "quick" else 2000, length=14 if tier == "quick" else 40, weights={"init": 5, "handle": 3, "cache": 2, "doc": 1, "remove": 1})
-    r.update(scope="random histories (length 14 quick / 40 thorough) of {init, doc edit/reset, file, remove, clear/reset, re-key by 6 routes, move, clone, handle copy/deepcopy/pickle/reopen/drop, "
-                   "update_cache/restart/delete cache} over 2 projects, 4 keys x 8 values; model equality, check(), listing==len==membership, no temp files, live handles follow -- after every step", rule=RULE)
+    r = run_histories(seed + 2, Budget(6 if tier == "quick" else 120), n_hist=20 if tier == "quick" else 1000, length=14 if tier == "quick" else 40,
+                      weights={"init": 5, "handle": 3, "cache": 2, "doc": 1, "remove": 1})
+    e, d, f = prefix_checks(seed + 2, b, 6 if tier == "quick" else 200)
+    r["evaluations"] += e
+    r["distinct_nontrivial"] += len(d)
+    r["failures"] = f + r["failures"]
+    r.update(scope="random histories of init / handle copies / cache / remove over 2 projects with model equality after every step; plus id-prefix lookup (lengths 1-4, 31, 32, unknown ids) "
+                   "in a fresh session with a partially filled cache on projects of 1-24 jobs", rule=RULE)
     return r
